@@ -105,7 +105,8 @@ def sheet_encode(tree):
             and is_name(last.value.args[0], "encoding") and not last.value.keywords):
         raise Refused("do_CSSStyleSheet does not end in `return text.encode(encoding, <handler>)`")
     hname = const_str(last.value.args[1], "errors argument")
-    tr = one((n for n in fn.body if isinstance(n, ast.Try)), "try statement in do_CSSStyleSheet")
+    # the try/except that picks the encoding (a try/finally around the rule loop is not it)
+    tr = one((n for n in fn.body if isinstance(n, ast.Try) and n.handlers), "try/except statement in do_CSSStyleSheet")
     a = one(tr.body, "statement in the try body")
     ok = (isinstance(a, ast.Assign) and is_name(a.targets[0], "encoding") and isinstance(a.value, ast.Attribute)
           and a.value.attr == "encoding" and isinstance(a.value.value, ast.Subscript)
